@@ -162,7 +162,7 @@ def run(ctx):
                 "'ifconfig dnsN mtu N' with 200 < N <= 1500. evaluations = hostile login replies delivered; "
                 "non-trivial/distinct = (field, corpus class, qtype, encoding) tuples.")
     res.assumptions = ["Linux build (ifconfig command grammar of tun.c)", "interface name comes from the local tun open, not from the peer"]
-    n = ctx.pick(1100, 20000)
+    n = ctx.pick(2000, 120000)
     rng = random.Random(ctx.seed * 3571 + 13)
     plist = [{"idx": i, "seed": ctx.seed * 100000 + i, "rseed": rng.getrandbits(32), "qtype": QTS[i % 7],
               "p_hostile": rng.choice([0.3, 0.6, 1.0])} for i in range(n)]
